@@ -6,6 +6,10 @@ mod ops;
 #[cfg(feature = "full")]
 mod files;
 #[cfg(feature = "full")]
+mod tantivy_drv;
+#[cfg(feature = "full")]
+mod train;
+#[cfg(feature = "full")]
 mod record;
 
 use std::fs::{File, OpenOptions};
@@ -21,6 +25,10 @@ fn run_case(case: &Value) -> Value {
     let kind = case["kind"].as_str().unwrap_or("history");
     match kind {
         "history" => ops::run_history(case),
+        #[cfg(feature = "full")]
+        "tantivy" => tantivy_drv::run_case(case),
+        #[cfg(feature = "full")]
+        "train" => train::run_case(case),
         _ => json!({"id": case["id"], "error": format!("unknown kind {kind}")}),
     }
 }
@@ -86,6 +94,8 @@ fn main() {
                 "sentences" => record::record_sentences(n, seed, &mut out),
                 "histories" => record::record_histories(n, seed, &mut out),
                 "serde" => record::record_serde(n, seed, &mut out),
+                "normalise" => tantivy_drv::record_normalise(n, seed, &mut out),
+                "tantivy" => tantivy_drv::record_tantivy(n, seed, &mut out),
                 _ => {
                     eprintln!("unknown record kind");
                     std::process::exit(2);
